@@ -25,7 +25,7 @@ type harnessPanic struct {
 
 // runPlan executes one plan in a fresh bubble with freshly reset library globals.
 // A run that does not come back: code under test spinning without any simulated time passing cannot be cut off from inside
-// the bubble. With VERIF_RUN_WALL_S set (C09), a watchdog outside the bubble ends the process (exit 3) once a single run has
+// the bubble. With VERIF_RUN_WALL_S set (C09, C18), a watchdog outside the bubble ends the process (exit 3) once a single run has
 // taken that many wall-clock seconds; the driver then re-executes the plan alone and reports it if that does not return either.
 var (
 	wallOnce       sync.Once
